@@ -978,11 +978,11 @@ class Time(AbstractDateTime):
 
     def __add__(self, other: object) -> 'Time':
         if isinstance(other, DayTimeDuration):
-            dt = self._dt + other.get_timedelta()
-        elif isinstance(other, datetime.timedelta):
-            dt = self._dt + other
-        else:
+            other = other.get_timedelta()
+        elif not isinstance(other, datetime.timedelta):
             raise TypeError("wrong type %r for operand %r" % (type(other), other))
+        # only the time of day counts: whole days would overflow the proxy datetime
+        dt = self._dt + datetime.timedelta(seconds=other.seconds, microseconds=other.microseconds)
         return Time(dt.hour, dt.minute, dt.second, dt.microsecond, dt.tzinfo)
 
     def __sub__(self, other: object) -> Union['DayTimeDuration', 'Time']:
@@ -990,11 +990,9 @@ class Time(AbstractDateTime):
             dt1, dt2 = get_comparable_datetimes(self._dt, other._dt)
             return DayTimeDuration.fromtimedelta(dt1 - dt2)
         elif isinstance(other, DayTimeDuration):
-            dt = self._dt - other.get_timedelta()
-            return Time(dt.hour, dt.minute, dt.second, dt.microsecond, dt.tzinfo)
+            return self + (-other.get_timedelta())
         elif isinstance(other, datetime.timedelta):
-            dt = self._dt - other
-            return Time(dt.hour, dt.minute, dt.second, dt.microsecond, dt.tzinfo)
+            return self + (-other)
         else:
             raise TypeError("wrong type %r for operand %r" % (type(other), other))
 
